@@ -37,6 +37,51 @@ var sharedStructs = map[string]bool{"btreeNode": true, "leafCell": true, "intern
 // constructor functions: assignments to fileStore fields here initialise an object not yet shared.
 var storeConstructors = map[string]bool{"storage.newFileStore": true}
 
+// isStoreConstructor: newFileStore, or a function the rules have never seen that returns a *fileStore it has just
+// built — from a composite literal or from another constructor (a bool parameter replaced by two named
+// constructors, a constructor with options): the object is not shared before the function returns.
+func (w *World) isStoreConstructor(f *Func) bool {
+	if storeConstructors[f.Name] {
+		return true
+	}
+	if v, ok := w.memo["ctor:"+f.Name].(bool); ok {
+		return v
+	}
+	if w.memo == nil {
+		w.memo = map[string]any{}
+	}
+	w.memo["ctor:"+f.Name] = false // cycles
+	res := false
+	defer func() { w.memo["ctor:"+f.Name] = res }()
+	if _, pinned := pinnedFuncs[f.Name]; pinned || f.Decl.Body == nil {
+		return false
+	}
+	sig := f.Obj.Type().(*types.Signature)
+	returnsStore := false
+	for i := 0; i < sig.Results().Len(); i++ {
+		if namedTypeIs(sig.Results().At(i).Type(), "storage", "fileStore") {
+			returnsStore = true
+		}
+	}
+	if !returnsStore || sig.Recv() != nil {
+		return false
+	}
+	ast.Inspect(f.Decl.Body, func(x ast.Node) bool {
+		switch y := x.(type) {
+		case *ast.CompositeLit:
+			if t := f.TypeOf(y); t != nil && namedTypeIs(t, "storage", "fileStore") {
+				res = true
+			}
+		case *ast.CallExpr:
+			if h := w.FuncOf(f.Callee(y)); h != nil && h != f && w.isStoreConstructor(h) {
+				res = true
+			}
+		}
+		return true
+	})
+	return res
+}
+
 func (w *World) Locks() *LockModel {
 	if m, ok := w.memo["locks"].(*LockModel); ok {
 		return m
@@ -84,7 +129,7 @@ func (w *World) Locks() *LockModel {
 	// fileStore fields assigned outside the constructor are mutable shared state
 	for _, name := range w.SortedFuncNames() {
 		f := w.Funcs[name]
-		if f.Pkg != st || storeConstructors[f.Name] {
+		if f.Pkg != st || w.isStoreConstructor(f) {
 			continue
 		}
 		ast.Inspect(f.Decl.Body, func(n ast.Node) bool {
